@@ -15,6 +15,7 @@ RULE = (
     "children of inline and image tokens (pairing X_open/X_close with equal tag and markup, level == depth, block flag per layer, "
     "children only on inline/image, no adjacent text, no text_special) + SyntaxTreeNode construction. Non-trivial = stream with "
     ">=1 open/close pair below paragraph level (a container block or an inline pair); distinct by (api, conf id, source)."
+    " Also: hand-written preset dicts without rules2, the boundary-value catalogue, the W-path families, and every sequence of <=5 delimiter words for 8 pairs of delimiter kinds (531k inline texts)."
 )
 ASSUMPTIONS = ["linkify-generated pairs come from a stub linkifier (linkify-it-py unavailable offline)"]
 
